@@ -622,6 +622,88 @@ def scan_arith_tries() -> list[tuple[str, str, list[str], list[str]]]:
     return rows
 
 
+GUARD_FILES = ARITH_FILES + ['xpath_tokens/base.py', 'xpath_tokens/functions.py']
+LOOKUP_TABLES = ('namespaces', 'variables', 'documents', 'collections', 'text_resources', 'symbol_table',
+                 'decimal_formats', 'variable_types')
+
+
+def scan_unguarded_sites() -> list[tuple[str, str, str]]:
+    """(file, method, kind): int()/float()/Decimal() calls, .encode()/.decode()/codecs.* calls and subscript
+    look-ups in per-call tables inside evaluate*/select*/cast*/nud*/led* methods of the operator / function /
+    token modules that are not inside the body of any try-with-handlers of that method"""
+    import ast
+    found = set()
+
+    def kind_of(n):
+        if isinstance(n, ast.Call):
+            f = ast.unparse(n.func)
+            if f in ('int', 'float', 'Decimal', 'decimal.Decimal'):
+                return f.split('.')[-1] + '()'
+            if isinstance(n.func, ast.Attribute) and n.func.attr in ('encode', 'decode'):
+                return n.func.attr + '()'
+            if f.startswith('codecs.'):
+                return 'codecs'
+        if isinstance(n, ast.Subscript) and isinstance(n.ctx, ast.Load):
+            b = ast.unparse(n.value).split('.')[-1]
+            if b in LOOKUP_TABLES:
+                return 'lookup:' + b
+        return None
+
+    def walk(node, func, guarded, rel):
+        for ch in ast.iter_child_nodes(node):
+            if isinstance(ch, (ast.FunctionDef, ast.AsyncFunctionDef)):
+                walk(ch, ch.name, False, rel)
+                continue
+            if isinstance(ch, ast.Try) and ch.handlers:
+                for st in ch.body:
+                    check(st, func, True, rel)
+                for part in list(ch.handlers) + ch.orelse + ch.finalbody:
+                    check(part, func, guarded, rel)
+                continue
+            check(ch, func, guarded, rel)
+
+    def check(node, func, guarded, rel):
+        k = kind_of(node)
+        if k and not guarded and func and func.startswith(('evaluate', 'select', 'cast', 'nud', 'led')):
+            found.add((rel, func, k))
+        if isinstance(node, ast.Try) and node.handlers:
+            for st in node.body:
+                check(st, func, True, rel)
+            for part in list(node.handlers) + node.orelse + node.finalbody:
+                check(part, func, guarded, rel)
+            return
+        if isinstance(node, (ast.FunctionDef, ast.AsyncFunctionDef)):
+            walk(node, node.name, False, rel)
+            return
+        walk(node, func, guarded, rel)
+
+    for rel in sorted(set(GUARD_FILES)):
+        path = REPO / 'elementpath' / rel
+        if path.exists():
+            walk(ast.parse(path.read_text()), None, False, rel)
+    return sorted(found)
+
+
+def scan_while_loops() -> list[tuple[str, str, str]]:
+    import ast
+    pkg = REPO / 'elementpath'
+    out = []
+
+    def visit(node, func, rel):
+        for ch in ast.iter_child_nodes(node):
+            f2 = ch.name if isinstance(ch, (ast.FunctionDef, ast.AsyncFunctionDef)) else func
+            if isinstance(ch, ast.While):
+                out.append((rel, func or '<module>', ast.unparse(ch.test)))
+            visit(ch, f2, rel)
+
+    for path in sorted(pkg.rglob('*.py')):
+        try:
+            visit(ast.parse(path.read_text()), None, str(path.relative_to(pkg)))
+        except SyntaxError:
+            out.append((str(path.relative_to(pkg)), '<unparsable>', '?'))
+    return sorted(set(out))
+
+
 def parse_shape(func) -> dict:
     """shape of a `parse` method: for the outermost try/finally — the attribute assignments of the
     `finally` block (in order), the kinds of the statements before the `try`, whether a call of
@@ -727,6 +809,14 @@ def translate_tables(run: Run) -> dict:
     out.append('def tryTable : List (String × String × List String × List String) := [' + ', '.join(
         f'({lean_str(a)}, {lean_str(b)}, {strs(c)}, {strs(d)})' for a, b, c, d in rows) + ']')
     info['arith_try_blocks'] = len(rows)
+    ung = scan_unguarded_sites()
+    out.append('def unguardedSites : List (String × String × String) := [' +
+               ', '.join(f'({lean_str(a)}, {lean_str(b)}, {lean_str(c)})' for a, b, c in ung) + ']')
+    wl = scan_while_loops()
+    out.append('def whileLoops : List (String × String × String) := [' +
+               ', '.join(f'({lean_str(a)}, {lean_str(b)}, {lean_str(c)})' for a, b, c in wl) + ']')
+    info['unguarded_sites'] = len(ung)
+    info['while_loops'] = len(wl)
     writers = scan_cursor_writers()
     out.append('def cursorWriters : List (String × String × String) := [' +
                ', '.join(f'({lean_str(a)}, {lean_str(b)}, {lean_str(c)})' for a, b, c in writers) + ']')
@@ -903,6 +993,43 @@ def eval_reuse_case(v: str, src: str):
     from copy import copy
     good = make_context(v, 'doc', p)
     res = []
+    # the SAME token over a sequence of different contexts (documents, items, variable maps) must answer each
+    # like a token parsed for that context alone
+    import elementpath
+    et2 = documents()['et']
+    for kind in ('lxml', 'elem', 'doc', 'attr', 'doc'):
+        ctx = make_context(v, kind, p)
+        if kind == 'attr':
+            ctx.variables['s'] = 'zzz'
+            ctx.variables['n'] = 99
+        o1, _s, v1 = in_process_guard(lambda: consume(tok.evaluate(copy(ctx))))
+        fresh_tok = new_parser(v).parse(src)
+        o2, _s, v2 = in_process_guard(lambda: consume(fresh_tok.evaluate(copy(ctx))))
+        o3, _s, v3 = in_process_guard(lambda: list(tok.select(copy(ctx))))
+        o4, _s, v4 = in_process_guard(lambda: list(fresh_tok.select(copy(ctx))))
+        res.append(('seq-' + kind, 'ok', o1 + '/' + (canon_value(v1) if o1 == 'ok' else ''),
+                    o2 + '/' + (canon_value(v2) if o2 == 'ok' else '')))
+        res.append(('seq-select-' + kind, 'ok', o3 + '/' + (canon_value(v3) if o3 == 'ok' else ''),
+                    o4 + '/' + (canon_value(v4) if o4 == 'ok' else '')))
+    # Selector object reused over two roots vs the one-shot select() / iter_select()
+    try:
+        sel = elementpath.Selector(src, namespaces=dict(G.NAMESPACES), parser=parser_class(v))
+    except Exception:   # noqa  (the Selector constructor parses: failures are the parse stream's business)
+        sel = None
+    if sel is not None:
+        import xml.etree.ElementTree as ET
+        other = ET.XML('<a><b>9</b><z/></a>')
+        for root_name, root in (('doc', et2.getroot()), ('other', other), ('doc', et2.getroot())):
+            o1, _s, v1 = in_process_guard(lambda: consume(sel.select(root, namespaces=dict(G.NAMESPACES))))
+            o2, _s, v2 = in_process_guard(lambda: consume(elementpath.select(root, src, namespaces=dict(G.NAMESPACES),
+                                                                              parser=parser_class(v))))
+            o3, _s, v3 = in_process_guard(lambda: list(sel.iter_select(root, namespaces=dict(G.NAMESPACES))))
+            o4, _s, v4 = in_process_guard(lambda: list(elementpath.iter_select(root, src, namespaces=dict(G.NAMESPACES),
+                                                                               parser=parser_class(v))))
+            res.append(('selector-' + root_name, 'ok', o1 + '/' + (canon_value(v1) if o1 == 'ok' else ''),
+                        o2 + '/' + (canon_value(v2) if o2 == 'ok' else '')))
+            res.append(('selector-iter-' + root_name, 'ok', o3 + '/' + (canon_value(v3) if o3 == 'ok' else ''),
+                        o4 + '/' + (canon_value(v4) if o4 == 'ok' else '')))
     for bad_kind in ('none', 'atom', 'noroot'):
         bad = None if bad_kind == 'none' else make_context(v, bad_kind, p)
         o_bad, _s, _v = in_process_guard(lambda: consume(tok.evaluate(copy(bad) if bad is not None else None)))
@@ -947,7 +1074,7 @@ def correspond_histories(run: Run, n: int) -> None:
     if esc:
         xs = run.driver('C03', [trigger_line(v, s, out, site) for v, s, out, site in esc])
         for (v, s, out, site), ans in zip(esc, xs):
-            tag = ans[len('inK='):] if ans.startswith('inK=') else '-'
+            tag = accept_tag(ans)
             st.count('history:escape:' + out.split(':')[-1] + ('' if tag == '-' else f'[{tag}]'))
             run.disagree(Disagreement({'kind': 'explore', 'v': v, 's': s, 'c': 'doc', 'step': 'parse'}, out, None,
                                       SPEC_OK, what='escape', site=site, tags=[] if tag == '-' else [tag]))
@@ -982,7 +1109,10 @@ def correspond_histories(run: Run, n: int) -> None:
         if r is None:
             continue
         st.count('eval-reuse:tokens')
+        volatile = any(w in src for w in ('current-', 'random-number', 'generate-id', 'environment-variable'))
         for bad_kind, o_bad, reused, fresh in r:
+            if volatile:       # clock / random / identity values legitimately differ: compare the outcome kind only
+                reused, fresh = reused.split('/')[0], fresh.split('/')[0]
             st.case({'kind': 'eval-reuse', 'v': v, 's': src, 'bad': bad_kind}, nontrivial=o_bad != 'ok')
             if o_bad != 'ok':
                 st.count('eval-reuse:after-failed-evaluate')
@@ -1180,13 +1310,13 @@ def gen_explore_cases(rng, n: int, matrix: str = 'classes') -> list[dict]:
         for v in VERSIONS:
             for s, tag in G.name_cases(v):
                 cases.append({'v': v, 's': s, 'c': 'doc', 'g': tag})
-        for v in (VERSIONS if matrix == 'pool' else ['2.0', '3.1']):
+        for v in (VERSIONS if matrix == 'pool' else ['3.1']):
             for s, tag, dc in G.collation_cases(v):
                 case = {'v': v, 's': s, 'c': 'doc', 'g': tag}
                 if dc is not None:
                     case['dc'] = dc
                 cases.append(case)
-        for v in (VERSIONS if matrix == 'pool' else ['1.0', '3.1']):
+        for v in (VERSIONS if matrix == 'pool' else ['3.1']):
             for s, tag in G.magnitude_cases(v):
                 cases.append({'v': v, 's': s, 'c': 'doc', 'g': tag})
         # quick: operators/functions are shared code between the versions -> the matrices are run with the
@@ -1243,6 +1373,14 @@ def trigger_line(v: str, src: str, out: str, site: str) -> str:
     return f'X cls={cls} site={site or "-"} n={n} syms={",".join(enc(s) for s in syms)}'
 
 
+def accept_tag(ans: str) -> str:
+    """`inK=<id>#<row>` counts only if that row's witness escaped in this run (LIVE_ROWS)"""
+    if not ans.startswith('inK=') or '#' not in ans:
+        return '-'
+    fid, _, row = ans[len('inK='):].partition('#')
+    return fid if int(row) in LIVE_ROWS else '-'
+
+
 def judge_explored(run: Run, results: list[dict], count: bool = True) -> list[Disagreement]:
     """turn worker results into statistics and disagreements (tagged by the Lean trigger predicate)"""
     st = run.stats
@@ -1281,7 +1419,7 @@ def judge_explored(run: Run, results: list[dict], count: bool = True) -> list[Di
                                    site='XPathToken.evaluate'))
             continue
         ans = next(answers)
-        tag = ans[len('inK='):] if ans.startswith('inK=') else '-'
+        tag = accept_tag(ans)
         if count:
             st.count('explore:escape:' + out.split(':')[-1] + ('' if tag == '-' else f'[{tag}]'))
         ds.append(Disagreement(c, out, None, SPEC_OK, what='escape', site=site, tags=[] if tag == '-' else [tag]))
@@ -1289,9 +1427,12 @@ def judge_explored(run: Run, results: list[dict], count: bool = True) -> list[Di
 
 
 def explore(run: Run, n: int) -> list[dict]:
-    cases = gen_explore_cases(run.rng, n, matrix='classes' if run.quick else 'pool')
+    wit = witness_cases()
+    cases = wit + gen_explore_cases(run.rng, n, matrix='classes' if run.quick else 'pool')
     t0 = time.time()
     results = explore_many(cases, nworkers=int(os.environ.get('C03_WORKERS', '4')))
+    check_row_witnesses(run, results[:len(wit)])
+    run.log(f'{len(LIVE_ROWS)} of {len(ROW_WITNESS)} trigger rows live')
     for c, r in zip(cases, results):
         r['g'] = c.get('g', '?')
     run.log(f'explored {len(cases)} inputs in {time.time() - t0:.1f}s')
@@ -1351,6 +1492,8 @@ def search(run: Run):
     failing input with a wider net — exhaustive reuse pairs, every registered symbol through the
     lexer, every error code, and a second exploration stream"""
     sub = Run(PROP, run.tier, run.seed + 7919)
+    if not LIVE_ROWS and ROW_WITNESS:
+        check_row_witnesses(sub)
     sub.rng.seed(f'search/{run.seed}')
     # (a) every failing source followed by every succeeding source, per version, on one instance
     bad = ['1 +', '(', "'x", '(: c', '1 => (', "'a' => concat(", 'a[', '$', 'Q{', 'map{', '1 + "a"', 'xs:int("x")',
@@ -1426,6 +1569,46 @@ def shrink(d: Disagreement) -> Disagreement:
 
 
 # --------------------------------------------------------------------------------------
+ROW_WITNESS: dict = {}     # row index -> (finding id, class, site, witness case)
+LIVE_ROWS: set = set()      # rows whose own witness still escapes in this run (only these may tag)
+
+
+def witness_cases() -> list[dict]:
+    return [dict(w[3], g='row-witness') for _k, w in sorted(ROW_WITNESS.items()) if w[3]]
+
+
+def check_row_witnesses(run: Run, results=None) -> None:
+    """every trigger row must earn its keep in every run: its witness input is replayed first; a row whose
+    witness no longer produces (class, site) is DEACTIVATED for this run (it tags nothing) and reported"""
+    LIVE_ROWS.clear()
+    items = sorted(ROW_WITNESS.items())
+    if results is None:
+        cases = witness_cases()
+        results = explore_many(cases, nworkers=int(os.environ.get('C03_WORKERS', '4'))) if cases else []
+    it = iter(results)
+    stale = []
+    for k, (fid, cls, site, wit) in items:
+        r = next(it) if wit else None
+        ok = r is not None and any(out.split(':')[-1] == cls and EPVsite(site, st_site)
+                                   for _n, out, st_site in r['steps'] if out.startswith(('ERR:OTHER', 'ERR:NOCODE')))
+        if ok:
+            LIVE_ROWS.add(k)
+        else:
+            stale.append(f'{fid} row {k} {cls} @ {site}')
+    run.stats.count('trigger-rows:live', len(LIVE_ROWS))
+    run.stats.count('trigger-rows:stale', len(stale))
+    if stale:
+        run.notes.append('trigger rows whose witness no longer escapes (deactivated in this run; remove them): ' + '; '.join(stale))
+
+
+def EPVsite(pat: str, site: str) -> bool:
+    if pat == '*' or pat == site:
+        return True
+    if pat.startswith(':') and pat.endswith('*'):
+        return (site.split(':')[1] if ':' in site else '').startswith(pat[1:-1])
+    return False
+
+
 def check_trigger_table(run: Run) -> None:
     """findings/C03.json and the Lean trigger table must describe the same rows"""
     f = VERIF / 'findings' / 'C03.json'
@@ -1436,6 +1619,7 @@ def check_trigger_table(run: Run) -> None:
     for fd in data.get('findings', []):
         for row in fd.get('sites', []):
             want.add((fd['id'], row['class'], row['site'], ','.join(row.get('any_symbol', [])), str(row.get('min_tokens', 0))))
+            ROW_WITNESS[int(row['row'])] = (fd['id'], row['class'], row['site'], row.get('witness'))
     dump = run.driver('C03', ['T'])[0]
     have = {tuple(r.split(';')) for r in dump.split('|') if r}
     if want != have:
@@ -1501,9 +1685,9 @@ def body(run: Run) -> int:
     run.log('proofs built and audited')
     try:
         check_trigger_table(run)
+        cases = explore(run, run.scale(14000, 150000))      # (replays the row witnesses first)
         correspond_histories(run, run.scale(250, 2500))
         run.log('histories done')
-        cases = explore(run, run.scale(18000, 150000))
         lex_sources = [(c['v'], c['s']) for c in cases[::run.scale(6, 12)]]
         lex_sources += [(v, ' '.join(k for k in parser_class(v).symbol_table if not k.startswith('('))) for v in VERSIONS]
         lex_sources += [(VERSIONS[i % 4], s) for i, s in enumerate(G.KNOWN_NASTIES) if len(s) <= 300]
